@@ -295,12 +295,12 @@ type refEntry struct {
 }
 
 type cronRun struct {
-	c        CronCase
-	w        *sim.World
-	start    time.Time
-	model    map[string]*refEntry
-	res      pbt.Result
-	labels   map[string]bool
+	c           CronCase
+	w           *sim.World
+	start       time.Time
+	model       map[string]*refEntry
+	res         pbt.Result
+	labels      map[string]bool
 	autoDeliver bool
 	evBetween   bool // an event was delivered since the last tick
 	prevTickHad bool
